@@ -55,6 +55,7 @@ type Decision struct {
 	Enabled []string // canonical labels
 	Costs   []int
 	Chosen  int
+	At      time.Duration // virtual time since the loop started (diagnostics)
 }
 
 type Ctl struct {
@@ -85,6 +86,7 @@ type Ctl struct {
 	// (quiescence): a non-nil action is executed as a single-choice decision and the idle clock restarts.
 	OnIdle func() *Action
 	idleSteps int
+	t0        time.Time
 	wake      chan struct{}
 	// IdleResets: the horizon bounds consecutive idle virtual time (reset by every decision) instead of the total
 	IdleResets bool
@@ -226,6 +228,7 @@ func (c *Ctl) Loop(done func() bool) {
 	c.mu.Lock()
 	c.wake = make(chan struct{}, 1) // created inside the bubble
 	c.mu.Unlock()
+	c.t0 = time.Now()
 	for c.Steps = 0; c.Steps < c.MaxSteps; {
 		heartbeat.Add(1)
 		synctest.Wait()
@@ -288,7 +291,7 @@ func (c *Ctl) Loop(done func() bool) {
 			}
 		}
 		c.Choices = append(c.Choices, i)
-		c.Trace = append(c.Trace, Decision{Enabled: labels, Costs: costs, Chosen: i})
+		c.Trace = append(c.Trace, Decision{Enabled: labels, Costs: costs, Chosen: i, At: time.Since(c.t0)})
 		e := es[i]
 		if e.act != nil {
 			c.Steps++
@@ -306,6 +309,11 @@ func (c *Ctl) Loop(done func() bool) {
 		c.cur = e.p.gid
 		c.Steps++
 		e.p.ch <- e.alt
+		// one nanosecond of virtual time per decision: timers armed in different decisions never expire at the same
+		// instant, so sleepers wake in the order they went to sleep. (Timers with equal deadlines fire in the order of
+		// the runtime's timer heap, which is shared with every earlier execution's leftovers: nondeterminism the
+		// explorer does not own.) The sleep returns when every goroutine of the bubble is durably blocked.
+		time.Sleep(time.Nanosecond)
 	}
 	c.HitStepCap = true
 }
@@ -458,6 +466,17 @@ func (e *Explorer) runStable(sc *Scenario, prefix []int, expect [][]string) (exe
 		e.Stats.Retries++
 		if e.Stats.Retries <= 5 {
 			fmt.Printf("RETRY %s %v: %s\n", sc.Name, prefix, r.ctl.divMsg)
+			if os.Getenv("VERIF_DIVDEBUG") != "" {
+				for i, d := range r.ctl.Trace {
+					fmt.Printf("  DIV got  %d @%v: %v -> %d\n", i, d.At, d.Enabled, d.Chosen)
+					if i < len(expect) {
+						fmt.Printf("  DIV want %d: %v\n", i, expect[i])
+					}
+				}
+				for _, l := range r.ctl.Log {
+					fmt.Printf("  DIV log %s\n", l)
+				}
+			}
 		}
 		// a diverged execution is still a real execution: judge it
 		e.judge(sc, r, true)
